@@ -39,6 +39,9 @@ class Cache:
     #     finish calling the function passed to build_versioned.
     # Lock _created_dirs_lock - The lock guarding access to _created_dirs. If
     #     the cache is immutable, this is contextlib.nullcontext() instead.
+    # set<str> _built_files - The non-norm-cased filenames of the files we
+    #     started building with start_building_file, as opposed to the files
+    #     whose cached results we are reusing. Guarded by _files_lock.
     # dict<str, BuildFileOperation> _files - A map containing entries for the
     #     non-norm-cased filenames of the files we have started building. For
     #     the files that we have finished building, including those that
@@ -102,6 +105,7 @@ class Cache:
             self._subbuilds_lock = null_context
             self._created_dirs_lock = null_context
 
+        self._built_files = set()
         self._norm_cased_files = {}
         for filename, operation in files.items():
             self._norm_cased_files[os.path.normcase(filename)] = operation
@@ -188,6 +192,17 @@ class Cache:
                 norm_cased_filename, filename)
             self._files[filename] = None
             self._norm_cased_files[norm_cased_filename] = None
+            self._built_files.add(filename)
+
+    def built_file(self, filename):
+        """Return whether we built (or started building) the specified file.
+
+        Return whether we called ``start_building_file`` for the
+        specified non-norm-cased filename, i.e. whether we built or
+        rebuilt the file rather than reusing a cached result.
+        """
+        with self._files_lock:
+            return filename in self._built_files
 
     def finish_building_file(self, operation):
         """Record the result of building the specified file.
